@@ -100,7 +100,7 @@ static void compareSnaps(verif::Run& run, const std::string& what, const std::st
     if (sameSpeeds) {
         double eu = 0, ed = 0, su = 1e-2, sd = 1e-2;
         const bool sz = a.u.size() == b.u.size();
-        run.expect(sz, what + "-nu-equal/" + suffix, [&] { return "different nu at " + where(); }, rep);
+        run.expect(sz, what + "-nu-equal" + (sz ? std::string() : "/" + suffix), [&] { return "different nu at " + where(); }, rep);
         if (sz) {
             for (int i = 0; i < a.u.size(); ++i) { su = std::max(su, std::abs(a.u[i])); sd = std::max(sd, std::abs(a.udot[i])); }
             for (int i = 0; i < a.u.size(); ++i) { eu = std::max(eu, std::abs(a.u[i] - b.u[i]) / su); ed = std::max(ed, std::abs(a.udot[i] - b.udot[i]) / sd); }
@@ -160,7 +160,7 @@ static void checkQuatEuler(verif::Run& run, const std::vector<mb::BodySpec>& spe
         if (sameNU) for (int i = 0; i < from.getNU(); ++i) if (to.getU()[i] != from.getU()[i]) { if (to.getU()[i] == 0) nZeroed++; else nStray++; }
         const bool uKept = sameNU && nZeroed == 0 && nStray == 0;
         run.expect(sameNU && nZeroed == 0, "T1-conversion-keeps-generalized-speeds-u(not-reset-to-zero)/" + dn, [&] { return "u reset to zero by the conversion (" + dn + ") at " + desc; }, rep);
-        run.expect(nStray == 0, "T1-conversion-writes-no-stray-values-into-u/" + dn + "/" + (lineKinds.empty() ? qk : lineKinds), [&] { return std::to_string(nStray) + " entries of u hold values that are neither the old u nor zero after the conversion (" + dn + ") at " + desc; }, rep);
+        run.expect(nStray == 0, "T1-conversion-writes-no-stray-values-into-u/" + dn + (nStray ? "/" + (lineKinds.empty() ? qk : lineKinds) : std::string()) /* kind suffix only on failure: keeps the ok counters compact */, [&] { return std::to_string(nStray) + " entries of u hold values that are neither the old u nor zero after the conversion (" + dn + ") at " + desc; }, rep);
         if (nStray && run.verbose) std::cout << "  stray: from u=" << from.getU() << " to u=" << to.getU() << "\n";
         run.expect(to.getTime() == from.getTime(), "T1-conversion-keeps-time/" + dn, [&] { return "time not copied by the conversion (" + dn + ") at " + desc; }, rep);
         if (!uKept && to.getNU() == from.getNU()) { to.updU() = from.getU(); run.count("T1:u-restored-by-harness-after-conversion"); }
